@@ -26,7 +26,7 @@ type genCfg struct {
 }
 
 var cfgGeneral = genCfg{
-	names: []string{"a", "b", "c"}, subs: []string{"", "", "", "x", "y"},
+	names: []string{"a", "b", "c"}, subs: []string{"", "", "", "", "x", "x", "y", "y", "k=v"},
 	types:    []int{0, 1, 2, 3, 4, 5, tyI0, tyI3, tyI1, 6},
 	maxConvs: 6, maxDepth: 3, pFail: 4, pOnce: 10, pLeave: 8, pDistract: 40,
 	forms: []string{"pos", "pos", "struct", "ptr", "built"}, multiIn: 25,
@@ -134,6 +134,9 @@ func (c genCfg) newConv(r *rng, sc *scenario, outs []lab, ins []lab) *fnSpec {
 	if r.intn(100) < c.pFail {
 		f.HasErr = true
 		f.Script = fmt.Sprintf("fail@%d", r.intn(2))
+		if r.chance(1, 5) {
+			f.Script = "typednil" // a non-nil error interface holding a nil pointer is still an error
+		}
 	}
 	if f.OForm == "ptr" && r.chance(1, 10) {
 		f.Script = "nilptr"
@@ -199,7 +202,16 @@ func genScenario(r *rng, c genCfg) *scenario {
 				out.Ty = concreteFor(r, out.Ty)
 			}
 			outs := []lab{out}
-			if r.chance(1, 4) {
+			if r.chance(1, 6) {
+				// a second output of the same type and subtype with the other "namedness", declared first
+				twin := out
+				if out.Name == "" {
+					twin.Name = c.names[r.intn(len(c.names))]
+				} else {
+					twin.Name = ""
+				}
+				outs = []lab{twin, out}
+			} else if r.chance(1, 4) {
 				extra := c.randLabel(r, false)
 				if (extra.Name == "" && out.Name == "" && extra.Ty == out.Ty) || (extra.Name != "" && extra.Name == out.Name) {
 					extra = lab{}
@@ -350,7 +362,14 @@ func init() {
 
 // ---------------------------------------------------------------- specialised families
 
-var cfgFail = func() genCfg { c := cfgGeneral; c.pFail = 45; c.pLeave = 2; c.maxDepth = 5; c.maxConvs = 7; return c }()
+var cfgFail = func() genCfg {
+	c := cfgGeneral
+	c.pFail = 45
+	c.pLeave = 2
+	c.maxDepth = 5
+	c.maxConvs = 7
+	return c
+}()
 var cfgSingle = func() genCfg {
 	c := cfgGeneral
 	c.multiIn = 0
@@ -450,7 +469,15 @@ func genHopeless(r *rng, c genCfg) *scenario {
 		dead.Name = ""
 	}
 	t.Ins = append(t.Ins, dead)
-	switch r.intn(3) {
+	switch r.intn(4) {
+	case 3: // mutual multi-input cycle: f(X, 8) -> 9, g(9, X) -> 8, X supplied
+		x := lab{Ty: r.intn(4)}
+		vid := 7000
+		sc.Opts = append(sc.Opts, sc.supplyFor(r, c, x, &vid, true))
+		f := c.newConv(r, sc, []lab{dead}, []lab{x, {Ty: 8}})
+		g := c.newConv(r, sc, []lab{{Ty: 8}}, []lab{{Ty: 9}, x})
+		f.Script, g.Script = "ok", "ok"
+		sc.Opts = append(sc.Opts, optSpecC{Kind: "convfunc", Fids: []int{f.ID}}, optSpecC{Kind: "convfunc", Fids: []int{g.ID}})
 	case 0: // hopeless: nothing produces type 9
 	case 1: // a converter produces it but needs type 8, which nothing provides
 		f := c.newConv(r, sc, []lab{dead}, []lab{{Ty: 8}, c.randLabel(r, false)})
@@ -474,28 +501,49 @@ func genAffinity(r *rng, c genCfg) (*scenario, string) {
 	target := &fnSpec{ID: 0, Ins: []lab{{Name: n, Ty: S}}, Script: "ok", OForm: "pos", Form: []string{"struct", "ptr", "built"}[r.intn(3)]}
 	sc.Funcs = append(sc.Funcs, target)
 	vid := 1
-	want := vid
 	sc.Opts = append(sc.Opts, optSpecC{Kind: "named", Name: n, Ty: T, Vid: vid})
 	var extra string
 	if r.chance(1, 2) {
-		// family A: one converter with a type-only input, several same-typed named inputs
+		// family A: one converter with a type-only input, several same-typed named inputs; one to three
+		// named parameters each to be converted from the input of its own name
+		pnames := []string{n}
+		for _, x := range c.names {
+			if x != n && r.chance(1, 3) {
+				pnames = append(pnames, x)
+			}
+		}
+		target.Ins = nil
+		sc.Opts = nil
+		vid = 0
+		var wants []string
+		for _, pn := range pnames {
+			target.Ins = append(target.Ins, lab{Name: pn, Ty: S})
+			vid++
+			o := optSpecC{Kind: "named", Name: pn, Ty: T, Vid: vid}
+			if r.chance(1, 4) { // the matching input carries a subtype, the parameter does not
+				o.Kind, o.Sub = "namedsub", []string{"foo", "bar"}[r.intn(2)]
+			}
+			sc.Opts = append(sc.Opts, o)
+			wants = append(wants, fmt.Sprintf("%s:%d", pn, vid))
+		}
 		others := []string{"m1", "m2", "m3", "m4", "m5", "m6"}
 		k := 1 + r.intn(6)
 		for i := 0; i < k; i++ {
 			vid++
-			sc.Opts = append(sc.Opts, optSpecC{Kind: "named", Name: others[i], Ty: T, Vid: vid})
+			o := optSpecC{Kind: "named", Name: others[i], Ty: T, Vid: vid}
+			if r.chance(1, 4) {
+				o.Kind, o.Sub = "namedsub", []string{"foo", "bar"}[r.intn(2)]
+			}
+			sc.Opts = append(sc.Opts, o)
 		}
 		out := lab{Ty: S}
-		if r.chance(1, 2) {
-			out.Name = n
-		}
 		f := c.newConv(r, sc, []lab{out}, []lab{{Ty: T}})
 		f.Script, f.Once = "ok", false
 		sc.Opts = append(sc.Opts, optSpecC{Kind: []string{"conv", "convfunc"}[r.intn(2)], Fids: []int{f.ID}})
 		if f.Form == "built" {
 			sc.Opts[len(sc.Opts)-1].Kind = "convfunc"
 		}
-		extra = fmt.Sprintf("fam=affA conv=%d want=%d", f.ID, want)
+		extra = fmt.Sprintf("fam=affA conv=%d want=%s", f.ID, strings.Join(wants, ","))
 	} else {
 		// family B: a type-only converter and one that uses the name
 		out1 := lab{Ty: S}
